@@ -14,11 +14,45 @@ import (
 )
 
 type (
-	Map       = sync.Map
-	WaitGroup = sync.WaitGroup
-	Cond      = sync.Cond
-	Locker    = sync.Locker
+	Map    = sync.Map
+	Cond   = sync.Cond
+	Locker = sync.Locker
 )
+
+// WaitGroup: Wait polls (handing the processor to other simulated tasks)
+// instead of blocking the only running goroutine; the real WaitGroup
+// underneath keeps the happens-before edges.
+type WaitGroup struct {
+	n  atomic.Int64
+	wg sync.WaitGroup
+}
+
+func (w *WaitGroup) Add(delta int) {
+	w.wg.Add(delta)
+	w.n.Add(int64(delta))
+}
+
+func (w *WaitGroup) Done() {
+	w.wg.Done()
+	w.n.Add(-1)
+	simrt.Yield(0)
+}
+
+func (w *WaitGroup) Wait() {
+	simrt.Yield(0)
+	for w.n.Load() > 0 {
+		simrt.Block()
+	}
+	w.wg.Wait()
+}
+
+func (w *WaitGroup) Go(f func()) {
+	w.Add(1)
+	simrt.Go(func() {
+		defer w.Done()
+		f()
+	})
+}
 
 func NewCond(l Locker) *Cond { return sync.NewCond(l) }
 
